@@ -15,6 +15,27 @@ def main():
     if not call or call.get("args") is None:
         print("no failing input was found for this obligation; solver output:", rep.get("solver_output"))
         return 2
+    if rep.get("bounded_check"):
+        # a failing case of a bounded stand-in: run the stand-in again on the current tree and look for it
+        from contracts import bounded
+        hits, errs = bounded.replay_bounded(rep["bounded_check"], call["args"])
+        print("stand-in:", rep["bounded_check"], "input:", json.dumps(call["args"], ensure_ascii=True))
+        if errs:
+            print("worker error:", errs[0][-500:])
+            return 2
+        if hits:
+            h = hits[0]
+            print("still fails (" + str(h.get("backend")) + " back end):", h.get("what"))
+            print("observed:", h.get("observed"))
+            print("expected:", h.get("expected"))
+            return 1
+        print("the recorded input no longer fails on the current tree")
+        return 0
+    if rep.get("finite_obligation"):
+        print("finite / static obligation: the recorded input is", json.dumps(call["args"], ensure_ascii=True, default=repr))
+        print("observed when it was recorded:", json.dumps(rep.get("observed_vs_expected"), ensure_ascii=True, default=repr)[:600])
+        print("re-run  bin/check", rep.get("property"), " to evaluate the obligation on the current tree (it is exhaustive)")
+        return 2
     from contracts.registry import CONTRACTS
     from pyvc import replay
     c = CONTRACTS.get(call["function"])
